@@ -71,6 +71,12 @@ structure Index where
   name : String
   cols : List String
   unique : Bool
+  /-- partial index: the text after `WHERE` (`sqlite_where=text(...)`), an opaque token carried verbatim -/
+  where_ : Option String := none
+  /-- column names the predicate mentions (SQLite rejects `CREATE INDEX` when one is missing) -/
+  whereMentions : List String := []
+  /-- the predicate in the `col op k` fragment, when it is one (to evaluate partial UNIQUE indexes on rows) -/
+  wherePred : Option Pred := none
   deriving DecidableEq, Repr
 
 /-- Schema of one table as SQLite holds it. -/
